@@ -177,6 +177,12 @@ def handle : Sexp → Option Sexp
         match r with
         | none => .atom "none"
         | some t => .list [.atom "t", ofTree t, ofBool (starts.any (fun s => derivesU G s t))])))
+  -- (c09.seeds seed nTags nRules) → (det seeds) (rule seeds) start (alternative seeds)
+  | .list [.atom "c09.seeds", seed, nt, nr] => do
+      let seed ← seed.nat?
+      let nt ← nt.nat?
+      let nr ← nr.nat?
+      pure (.list [nats (detSeeds seed nt), nats (ruleSeedsU seed nt), ofNat (startSeedU seed nt), nats (altSeedsU seed nt nr)])
   | _ => none
 
 end PS.C09
